@@ -312,10 +312,17 @@ bool KDTree<CoordType, ValueType>::delete_node(Node* n) {
   bool was_leaf_node = true;
   while (n->before || n->after_or_equal) {
     was_leaf_node = false;
+    // The replacement must keep the invariant that everything under before is
+    // strictly less than the node along its dimension and everything under
+    // after_or_equal is not. Only the minimum of a subtree placed under
+    // after_or_equal satisfies this when points tie along the dimension, so if
+    // there is only a before subtree, it is moved to the other side first.
     Node* target;
-    if (n->before) {
-      target = KDTree::find_subtree_min_max(n->before, n->dim, true);
-    } else if (n->after_or_equal) {
+    if (!n->after_or_equal) {
+      n->after_or_equal = n->before;
+      n->before = nullptr;
+    }
+    if (n->after_or_equal) {
       target = KDTree::find_subtree_min_max(n->after_or_equal, n->dim, false);
     } else {
       throw std::logic_error("node is a leaf but still claims to be movable");
